@@ -212,6 +212,26 @@ func checkC10(p *Prog, r *Report) {
 	}
 	r.Floor("control:context-creation-sites", nCtx, 1)
 
+	// D2d the only store loader the application installs is the SDK's UpgradeStoreLoader (which applies store changes exactly at
+	// the plan height and is the default loader at every other start): a home-made loader decides what a restart loads
+	nLoader := 0
+	for _, fn := range p.ModFuncs {
+		if !InPkgs(fn, "app") {
+			continue
+		}
+		fo := NewOrigin(p, fn)
+		for _, cs := range callSites(fn) {
+			if !strings.HasSuffix(cs.Name, "baseapp.BaseApp).SetStoreLoader") || len(cs.Instr.Common().Args) < 2 {
+				continue
+			}
+			nLoader++
+			t := fo.Of(cs.Instr.Common().Args[1])
+			r.Check(t.IsCall("upgrade/types.UpgradeStoreLoader"), kp("WIRE", "SetStoreLoader="+FuncName(fn)+"#sdk-loader"), "the store loader installed by the application is x/upgrade's UpgradeStoreLoader", p.Pos(cs.Instr.Pos()),
+				"SetStoreLoader(upgradetypes.UpgradeStoreLoader(height, upgrades))", "the application installs its own store loader ("+clip(t.String(), 120)+"): which stores a restart adds, renames or deletes — and at which heights — is no longer x/upgrade's decision")
+		}
+	}
+	r.Count("SetStoreLoader-sites", nLoader)
+
 	// D3 no file / network I/O in scope
 	bad := ""
 	for _, fn := range scope {
